@@ -34,8 +34,8 @@ impl Check for C06 {
     }
     fn budget(&self, tier: Tier) -> u64 {
         match tier {
-            Tier::Quick => 20_000,
-            Tier::Thorough => 600_000,
+            Tier::Quick => 100_000,
+            Tier::Thorough => 2_000_000,
         }
     }
     fn run(&self, ch: &mut Chooser, _tier: Tier) -> RunOutcome {
